@@ -710,6 +710,36 @@ package godi
 //@ axiom dispatch_key: forall d *Descriptor :: {pure("graph.Provider.GetKey", box(d))} d != nil ==> pure("graph.Provider.GetKey", box(d)) == d.Key
 //@ axiom dispatch_group: forall d *Descriptor :: {pure("graph.Provider.GetGroup", box(d))} d != nil ==> pure("graph.Provider.GetGroup", box(d)) == d.Group
 //@ axiom dispatch_deps: forall d *Descriptor :: {pure("graph.Provider.GetDependencies", box(d))} d != nil ==> pure("graph.Provider.GetDependencies", box(d)) == d.Dependencies
+//@ axiom dispatch_group_type: forall n *groupNode :: {pure("graph.Provider.GetType", box(n))} n != nil ==> pure("graph.Provider.GetType", box(n)) == n.key.Type
+//@ axiom dispatch_group_key: forall n *groupNode :: {pure("graph.Provider.GetKey", box(n))} n != nil ==> pure("graph.Provider.GetKey", box(n)) == nil
+//@ axiom dispatch_group_group: forall n *groupNode :: {pure("graph.Provider.GetGroup", box(n))} n != nil ==> pure("graph.Provider.GetGroup", box(n)) == n.key.Group
+//@ axiom dispatch_group_deps: forall n *groupNode :: {pure("graph.Provider.GetDependencies", box(n))} n != nil ==> pure("graph.Provider.GetDependencies", box(n)) == n.members
+//@ field groupNode.key immutable
+//@ field groupNode.members immutable
+//@ func groupNode.GetType
+//@   requires recv: n != nil
+//@   ensures[C05] is_field: result == n.key.Type
+//@ func groupNode.GetKey
+//@   ensures[C05] is_nil: result == nil
+//@ func groupNode.GetGroup
+//@   requires recv: n != nil
+//@   ensures[C05] is_field: result == n.key.Group
+//@ func groupNode.GetDependencies
+//@   requires recv: n != nil
+//@   ensures[C05] is_field: result == n.members
+//@ func newGroupNode
+//@   safety[C15,C05]
+//@   modifies groupNode.*, reflection.Dependency.*, alloc
+//@   ensures[C05,C06] group_node_mirrors_members: result != nil && fresh(result) && result.key == key
+//@        && (forall i int :: 0 <= i && i < len(result.members) ==> result.members[i] != nil)
+//@        && (forall m int :: 0 <= m && m < len(members) && members[m] != nil ==> (exists i int :: 0 <= i && i < len(result.members)
+//@             && result.members[i].Type == members[m].Type && result.members[i].Key == members[m].Key && result.members[i].Group == members[m].Group))
+//@   loop 1
+//@     invariant node_ok: node != nil && fresh(node) && node.key == key && !isnil(node.members)
+//@     invariant members_ok: (forall i int :: 0 <= i && i < len(node.members) ==> node.members[i] != nil && fresh(node.members[i]) && allocated(node.members[i]) && node.members[i] != node)
+//@        && (forall m int :: 0 <= m && m < idx && members[m] != nil ==> (exists i int :: 0 <= i && i < len(node.members)
+//@             && node.members[i].Type == members[m].Type && node.members[i].Key == members[m].Key && node.members[i].Group == members[m].Group))
+//
 //@ func Descriptor.GetType
 //@   requires recv: d != nil
 //@   ensures[C05,C04] is_field: result == d.Type
@@ -733,6 +763,8 @@ package godi
 //@   requires deps_nonnil: forall i int, j int :: 0 <= i && i < len(sc.allDescriptors) && sc.allDescriptors[i] != nil && 0 <= j && j < len(sc.allDescriptors[i].Dependencies) ==> sc.allDescriptors[i].Dependencies[j] != nil
 //@   ghost pos seq[int]
 //@   ghost built *provider
+//@   ghost nreg int = 0
+//@   at after loop 1 : ghost nreg := ncalls("graph.DependencyGraph.AddProviderDeferred")
 //@   at before call g.AddProviderDeferred#1 : ghost pos[ncalls("graph.DependencyGraph.AddProviderDeferred")] := idx
 //@   at after assign p#1 : ghost built := p
 //@   at after assign p#1 : assert[C17] snapshot_of_registry: p.services != sc.services && p.groups != sc.groups
@@ -741,11 +773,13 @@ package godi
 //@   at after assign p#1 : assert[C04,C01] shares_analyzer_and_graph: p.analyzer == sc.analyzer && p.graph == g && fresh(p) && p.scopes != nil && len(p.scopes) == 0 && p.disposed == 0
 //@   ensures[C15] value_xor_error: (result1 == nil) <==> (result0 != nil)
 //@   ensures[C15] failure_is_build_error: result1 != nil ==> typeis(result1, "*BuildError") && as(result1, "*BuildError") != nil
-//@   ensures[C05,C06] graph_gets_every_registration_in_order: forall c int :: 0 <= c && c < ncalls("graph.DependencyGraph.AddProviderDeferred") ==>
+//@   ensures[C05,C06] graph_gets_every_registration_in_order: forall c int :: 0 <= c && c < nreg && c < ncalls("graph.DependencyGraph.AddProviderDeferred") ==>
 //@        0 <= pos[c] && pos[c] < len(old(sc.allDescriptors)) && old(sc.allDescriptors)[pos[c]] != nil && callarg("graph.DependencyGraph.AddProviderDeferred", c, 1) == box(old(sc.allDescriptors)[pos[c]])
-//@   ensures[C05,C06] graph_registrations_once_each: forall a int, b int :: 0 <= a && a < b && b < ncalls("graph.DependencyGraph.AddProviderDeferred") ==> pos[a] < pos[b]
+//@   ensures[C05,C06] graph_registrations_once_each: forall a int, b int :: 0 <= a && a < b && b < nreg ==> pos[a] < pos[b]
 //@   ensures[C05] success_means_cycle_check_passed: result1 == nil ==> ncalls("graph.DependencyGraph.DetectCycles") == 1 && callret("graph.DependencyGraph.DetectCycles", 0, 0) == nil
-//@        && (forall i int :: 0 <= i && i < len(old(sc.allDescriptors)) && old(sc.allDescriptors)[i] != nil ==> (exists c int :: 0 <= c && c < ncalls("graph.DependencyGraph.AddProviderDeferred") && pos[c] == i))
+//@        && (forall i int :: 0 <= i && i < len(old(sc.allDescriptors)) && old(sc.allDescriptors)[i] != nil ==> (exists c int :: 0 <= c && c < nreg && pos[c] == i))
+//@   ensures[C05,C06] success_means_every_group_is_a_node: result1 == nil ==> ncalls("newGroupNode") == ncalls("graph.DependencyGraph.AddProviderDeferred") - nreg
+//@        && (forall c int :: 0 <= c && c < ncalls("newGroupNode") ==> callarg("graph.DependencyGraph.AddProviderDeferred", nreg + c, 1) == box(callret("newGroupNode", c, 0, "*groupNode")))
 //@   ensures[C05,C15] cycle_is_reported_classifiably: ncalls("graph.DependencyGraph.DetectCycles") == 1 && callret("graph.DependencyGraph.DetectCycles", 0, 0) != nil ==>
 //@        result0 == nil && typeis(result1, "*BuildError") && as(result1, "*BuildError").Cause == callret("graph.DependencyGraph.DetectCycles", 0, 0) && ncalls("newScope") == 0
 //@   ensures[C07] success_means_lifetimes_validated: result1 == nil ==> ncalls("collection.validateLifetimes") == 1 && callarg("collection.validateLifetimes", 0, 0) == sc && callret("collection.validateLifetimes", 0, 0) == nil
@@ -761,10 +795,13 @@ package godi
 //@        result0 == nil && ncalls("provider.Close") == 1 && callarg("provider.Close", 0, 0) == built
 //@   ensures[C15] failed_singleton_phase_is_classifiable: ncalls("provider.createAllSingletonsWithContext") == 1 && callret("provider.createAllSingletonsWithContext", 0, 0) != nil && callret("provider.Close", 0, 0) == nil ==>
 //@        as(result1, "*BuildError").Cause == callret("provider.createAllSingletonsWithContext", 0, 0)
-//@   loop 3
+//@   loop 2
+//@     invariant frame: allDescriptors == old(sc.allDescriptors) && g != nil && wf(g) && ncalls("graph.DependencyGraph.DetectCycles") == 0
+//@     invariant registrations_kept: forall c int :: 0 <= c && c < ncalls("graph.DependencyGraph.AddProviderDeferred") && c < nreg ==> callarg("graph.DependencyGraph.AddProviderDeferred", c, 1) == box(allDescriptors[pos[c]])
+//@   loop 4
 //@     invariant cloned_so_far: services != nil && fresh(services) && (forall k TypeKey :: (k in services) ==> (k in sc.services) && services[k] == sc.services[k])
 //@        && (forall k TypeKey :: seen[k] ==> (k in services))
-//@   loop 4
+//@   loop 5
 //@     invariant cloned_so_far: groups != nil && fresh(groups) && (forall k GroupKey :: (k in groups) ==> (k in sc.groups) && len(groups[k]) == len(sc.groups[k]) && (forall i int :: 0 <= i && i < len(groups[k]) ==> groups[k][i] == sc.groups[k][i]))
 //@        && (forall k GroupKey :: seen[k] ==> (k in groups))
 //@   loop 1
@@ -783,58 +820,12 @@ package godi
 //@   requires plain: dep != nil && target != nil && dep.Group == ""
 //@   requires registered_under: target.Type == dep.Type && target.Key == dep.Key && target.Group == ""
 //@   ensures[C05,C06] edge_reaches_registration: mk("graph.NodeKey", dep.Type, dep.Key, dep.Group) == mk("graph.NodeKey", pure("graph.Provider.GetType", box(target)), pure("graph.Provider.GetKey", box(target)), pure("graph.Provider.GetGroup", box(target)))
-//@ lemma glue_group_dependency_is_an_edge
-//@   vars dep *reflection.Dependency, member *Descriptor, i int
-//@   requires group: dep != nil && member != nil && dep.Group != "" && dep.Key == nil && i >= 0
-//@   requires member_of: member.Type == dep.Type && member.Group == dep.Group && member.Key == box(i + 1, "int")
-//@   ensures[C05,C06] edge_reaches_member: mk("graph.NodeKey", dep.Type, dep.Key, dep.Group) == mk("graph.NodeKey", pure("graph.Provider.GetType", box(member)), pure("graph.Provider.GetKey", box(member)), pure("graph.Provider.GetGroup", box(member)))
-//
-// ---------------------------------------------------------------------------------------------
-// Error wrappers expose their cause (C15: errors.Is / errors.As reach the classifying error through every wrapper).
-//@ func ResolutionError.Unwrap
-//@   ensures[C15] exposes_cause: result == e.Cause
-//@ func RegistrationError.Unwrap
-//@   ensures[C15] exposes_cause: result == e.Cause
-//@ func ValidationError.Unwrap
-//@   ensures[C15] exposes_cause: result == e.Cause
-//@ func ModuleError.Unwrap
-//@   ensures[C15,C20] exposes_cause: result == e.Cause
-//@ func ReflectionAnalysisError.Unwrap
-//@   ensures[C15] exposes_cause: result == e.Cause
-//@ func GraphOperationError.Unwrap
-//@   ensures[C15] exposes_cause: result == e.Cause
-//@ func ConstructorInvocationError.Unwrap
-//@   ensures[C15] exposes_cause: result == e.Cause
-//@ func BuildError.Unwrap
-//@   ensures[C15] exposes_cause: result == e.Cause
-//
-// Generic helpers (C15: nil provider / nil key / empty group are rejected before anything is resolved).
-//@ func Provider.Get
-//@   nocheck
-//@   interferes
-//@ func Provider.GetKeyed
-//@   nocheck
-//@   interferes
-//@ func Provider.GetGroup
-//@   nocheck
-//@   interferes
-//@ func Resolve
-//@   safety[C15]
-//@   ensures[C15] nil_provider_rejected: provider == nil ==> result1 == ErrProviderNil && ncalls("Provider.Get") == 0
-//@   ensures[C04,C16] resolves_from_given_provider: provider != nil ==> ncalls("Provider.Get") == 1 && callarg("Provider.Get", 0, 0) == provider
-//@        && callarg("Provider.Get", 0, 1) == ext("(reflect.Type).Elem", "reflect.Type", ext("reflect.TypeOf", "reflect.Type", box(zero("*T"))))
-//@   ensures[C15] resolution_error_passed_through: provider != nil && callret("Provider.Get", 0, 1) != nil ==> result1 == callret("Provider.Get", 0, 1)
-//@   ensures[C15,C04] mismatch_is_classifiable: provider != nil && callret("Provider.Get", 0, 1) == nil && !typeis(callret("Provider.Get", 0, 0), "T") ==> typeis(result1, "*TypeMismatchError")
-//@   ensures[C04] value_is_the_resolved_one: provider != nil && callret("Provider.Get", 0, 1) == nil && typeis(callret("Provider.Get", 0, 0), "T") ==> result1 == nil && result0 == callret("Provider.Get", 0, 0)
-//@ func ResolveKeyed
-//@   safety[C15]
-//@   ensures[C15] nil_provider_rejected: provider == nil ==> result1 == ErrProviderNil && ncalls("Provider.GetKeyed") == 0
-//@   ensures[C15] nil_key_rejected: provider != nil && key == nil ==> result1 == ErrServiceKeyNil && ncalls("Provider.GetKeyed") == 0
-//@   ensures[C04] resolves_from_given_provider: provider != nil && key != nil ==> ncalls("Provider.GetKeyed") == 1 && callarg("Provider.GetKeyed", 0, 0) == provider && callarg("Provider.GetKeyed", 0, 2) == key
-//@ func ResolveGroup
-//@   safety[C15]
-//@   ensures[C15] nil_provider_rejected: provider == nil ==> result1 == ErrProviderNil && ncalls("Provider.GetGroup") == 0
-//@   ensures[C15] empty_group_rejected: provider != nil && group == "" ==> typeis(result1, "*ValidationError") && as(result1, "*ValidationError").Cause == ErrGroupNameEmpty && ncalls("Provider.GetGroup") == 0
-//@   ensures[C04] resolves_from_given_provider: provider != nil && group != "" ==> ncalls("Provider.GetGroup") == 1 && callarg("Provider.GetGroup", 0, 0) == provider && callarg("Provider.GetGroup", 0, 2) == group
-//@   loop 1
-//@     invariant in_order: len(results) == idx && (forall i int :: 0 <= i && i < idx ==> results[i] == services[i])
+//@ lemma glue_group_dependency_reaches_the_group_node
+//@   vars dep *reflection.Dependency, gn *groupNode
+//@   requires group: dep != nil && gn != nil && dep.Group != "" && dep.Key == nil
+//@   requires same_group: gn.key == mk("GroupKey", dep.Type, dep.Group)
+//@   ensures[C05,C06] edge_reaches_group_node: mk("graph.NodeKey", dep.Type, dep.Key, dep.Group) == mk("graph.NodeKey", pure("graph.Provider.GetType", box(gn)), pure("graph.Provider.GetKey", box(gn)), pure("graph.Provider.GetGroup", box(gn)))
+//@ lemma glue_group_node_reaches_every_member
+//@   vars md *reflection.Dependency, member *Descriptor
+//@   requires mirrors: md != nil && member != nil && md.Type == member.Type && md.Key == member.Key && md.Group == member.Group
+//@   ensures[C05,C06] edge_reaches_member: mk("graph.NodeKey", md.Type, md.Key, md.Group) == mk("graph.NodeKey", pure("graph.Provider.GetType", box(member)), pure("graph.Provider.GetKey", box(member)), pure("graph.Provider.GetGroup", box(member)))
